@@ -230,4 +230,18 @@ Proof.
     destruct (bmode s); unfold zlen; cbn [Datatypes.length]; rewrite int32_id by lia; lia.
 Qed.
 
+(* no-operand mnemonics (NOP, HLT, PUSHAD ...): pass 1 counts one byte, the table emits exactly one *)
+Lemma sized_noparam s op b :
+  handler_of op = Some "processNoParam"%string -> kind_known op = true -> lookup op Generated.Tables.noparam_table = Some b ->
+  - 2 ^ 31 <= loc s -> loc s + 1 < 2 ^ 31 ->
+  sized E m st dol s (do_mnemonic E s op []).
+Proof.
+  intros Hh Hk Hb Hlo Hhi. unfold do_mnemonic. rewrite Hh. cbn [String.eqb Ascii.eqb Bool.eqb].
+  unfold emit. rewrite Hk.
+  apply (SzPush E m st dol _ _ (ONoParam op) [b]).
+  - reflexivity.
+  - unfold emitted. cbn [gen_ocode]. rewrite Hb. reflexivity.
+  - cbn [push_ocode add_loc set_loc loc]. unfold zlen. cbn [Datatypes.length]. rewrite int32_id by lia. lia.
+Qed.
+
 End Instances.
